@@ -1231,6 +1231,20 @@ class Replayer:
                 return f + [f"result: inexact number: {e}"]
             if not self.same_obj(got, dict(t["ret"]["val"], kind="cv")):
                 f.append(f"result: got {got}, spec {t['ret']['val']}")
+        elif t["ret"].get("class") == "ok" and val.get("curve") is not None and self.mode.name == "fraction":
+            # rational operand(s), exact data only: the values are judged pointwise elsewhere; what the spec still fixes is the junction knot.
+            # Clamped ends interpolate, so if A's last point is B's first the joined curve is continuous there and needs
+            # at most multiplicity max(p, q) ("each junction knot keeps only the multiplicity the curve actually needs").
+            try:
+                A, B = t["pre"][t["act"]["obj"]], t["act"]["other"]
+                if A["P"] and B["P"] and A["P"][-1] == B["P"][0]:
+                    x = Fraction(A["U"][-1][0], A["U"][-1][1])
+                    deg = max(self._deg(A["U"]), self._deg(B["U"]))
+                    m = sum(1 for k in val["curve"].knotvector if k == x)
+                    if m > max(deg, 1):
+                        f.append(f"junction: continuous join keeps multiplicity {m} > degree {deg} at {x}")
+            except (KeyError, IndexError, TypeError, ZeroDivisionError):
+                pass
         return f
 
     def cmp_CvArith(self, live, t, val):
